@@ -45,6 +45,7 @@ def check(ctx, F):
     E = Effects(F)
     check_change_predicate(ctx, F, E)
     check_append(ctx, F, "C09.record")
+    check_replay_bounds(ctx, F, "C09.replay")
     if has_history(F):
         check_record(ctx, F)
         check_pin(ctx, F, E)
@@ -97,6 +98,46 @@ def check_change_predicate(ctx, F, E):
                               "without being guarded or recorded, and a vetoed round cannot be told from an unchanged one" % f, {"field": f})
 
 
+def check_replay_bounds(ctx, F, rule):
+    """R_::applyRequests reads transitions[i] of the caller's array only for i < count: every such read lies on a path on which exactly
+    that index was tested against count (index 0: count != 0) since it was last changed"""
+    for fid, b in insts(F, "R_", {"applyRequests"}):
+        site = "R_::applyRequests"
+        bad = None
+        reads = 0
+        for p in sym_paths(F, fid, 2):
+            ctx.paths += 1
+            known = set()
+            for ev in p:
+                if ev[0] == "assume" and ev[3]:
+                    m = re.match(r"^\((.*)<P:count\)$", ev[2])
+                    if m:
+                        known.add(m.group(1))
+                    elif ev[2] in ("P:count", "(P:count!=#0)", "(#0<P:count)", "(P:count>#0)"):
+                        known.add("#0")
+                elif ev[0] == "assume" and not ev[3]:
+                    m = re.match(r"^\((.*)>=P:count\)$", ev[2])
+                    if m:
+                        known.add(m.group(1))
+                if ev[0] == "call":
+                    texts = [ev[3] or ""] + list(ev[4] or [])
+                elif ev[0] == "write":
+                    texts = [ev[2] or "", ev[3] or ""]
+                elif ev[0] == "ret":
+                    texts = [ev[2] or ""]
+                else:
+                    texts = []
+                for t in texts:
+                    for m in re.finditer(r"P:transitions\[((?:[^\[\]]|\[[^\]]*\])*)\]", t or ""):
+                        reads += 1
+                        if m.group(1) not in known:
+                            bad = "transitions[%s] is read on a path that established only %s < count" % (m.group(1), sorted(known) or "nothing")
+        ctx.instance(rule, site, {"function": site, "loc": F.floc(fid), "reads_of_the_callers_array": reads})
+        if bad:
+            ctx.violation(rule, site + "/bound", "%s (%s)" % (site, F.floc(fid)),
+                          bad + ": the element behind the given count (caller memory, or a stale entry of a longer earlier message) is applied", {})
+
+
 def check_append(ctx, F, rule):
     """DynamicArrayT::operator+= appends: every item it stores goes through emplace() or to a slot whose index involves _count;
     a store at a _count-free index overwrites what the array already holds (the transitions approved in an earlier round of the step)"""
@@ -111,7 +152,21 @@ def check_append(ctx, F, rule):
                 stores.append(_expr_txt(x["place"][0]))
             elif x.get("k") == "asg" and "_items" in _expr_txt(x["lhs"]):
                 stores.append(_expr_txt(x["lhs"]))
-        ctx.instance(rule, site, {"function": site, "loc": F.floc(fid), "emplace_calls": emplaces, "direct_stores": stores})
+        # a direct store is bounded by this array's own capacity, not by some other number (a smaller bound silently drops approved
+        # transitions of later rounds, a larger one writes past the array)
+        cap = F.const(b["tid"], "CAPACITY")
+        bounds = set()
+        for p in sym_paths(F, fid, 1):
+            for ev in p:
+                if ev[0] == "assume":
+                    m = re.match(r"^\(this\._count(<|>=)#(\d+)\)$", ev[2])
+                    if m:
+                        bounds.add(int(m.group(2)))
+        if stores and cap is not None and bounds and bounds != {cap}:
+            ctx.violation(rule, site + "/bound", "%s (%s)" % (site, F.floc(fid)),
+                          "operator+= of an array of capacity %s appends while _count < %s: items beyond that are %s" % (
+                              cap, sorted(bounds), "dropped although there is room" if max(bounds) < cap else "written past the array"), {})
+        ctx.instance(rule, site, {"function": site, "loc": F.floc(fid), "emplace_calls": emplaces, "direct_stores": stores, "capacity": cap, "bounds": sorted(bounds)})
         bad = [t for t in stores if "_count" not in t]
         if bad or (not emplaces and not stores):
             ctx.violation(rule, site, "%s (%s)" % (site, F.floc(fid)),
@@ -213,6 +268,10 @@ def check_pin(ctx, F, E):
             pass  # .clear() calls (checked under C09.record)
         else:
             ctx.violation("C09.pin", site, "%s (%s)" % (site_str(F, w), F.floc(w)), "%s writes transitionTargets" % site_str(F, w), {})
+    check_pin_bounds(ctx, F, "C09.pin")
+
+
+def check_pin_bounds(ctx, F, rule):
     for cls in ("R_", "ControlT", "ConstControlT"):
         for fid, b in insts(F, cls, {"lastTransitionTo"}):
             if len(b.get("params", [])) != 1:
@@ -241,9 +300,9 @@ def check_pin(ctx, F, E):
                             bad = "returns &previousTransitions[index] without `index < previousTransitions.count()`"
                         if not re.search(r"previousTransitions.*\[.*transitionTargets.*\[P:stateId_\]", ev[2]):
                             bad = "returned entry `%s` is not previousTransitions[transitionTargets[stateId_]]" % ev[2]
-            ctx.instance("C09.pin", site, {"function": site, "loc": F.floc(fid)})
+            ctx.instance(rule, site, {"function": site, "loc": F.floc(fid)})
             if bad:
-                ctx.violation("C09.pin", site, "%s (%s)" % (site, F.floc(fid)), bad, {})
+                ctx.violation(rule, site, "%s (%s)" % (site, F.floc(fid)), bad, {})
 
 
 def reachable(F, fid):
